@@ -77,6 +77,27 @@ func genHistory(r *rand.Rand, u *kit.Universe, nops int) []step {
 			if flushBurst == 0 && r.IntN(3) != 0 {
 				h = append(h, step{Op: "compact-level"})
 			}
+		case x < 8:
+			// many pending rows of ONE series between two sorts of its memtable chunk: repeated,
+			// non-ascending timestamps, partial rows (the sort of > 12 rows must keep write order
+			// among equal timestamps)
+			se := u.Series[r.IntN(len(u.Series))]
+			m := u.Msts[r.IntN(len(u.Msts))]
+			n := 14 + r.IntN(30)
+			var pts []model.Point
+			for k := 0; k < n; k++ {
+				p := model.Point{Mst: m, Tags: se, T: u.Times[r.IntN(len(u.Times))], Fields: map[string]model.Value{}}
+				for _, f := range u.Fields {
+					if r.IntN(2) == 0 {
+						p.Fields[f.Name] = kit.Value(r, f.Kind)
+					}
+				}
+				if len(p.Fields) == 0 {
+					p.Fields["fi"] = kit.Value(r, 'i')
+				}
+				pts = append(pts, p)
+			}
+			h = append(h, step{Op: "write", pts: pts})
 		case x < 55:
 			h = append(h, step{Op: "write", pts: u.GenBatch(r, kit.BatchOpts{MaxPoints: 6, FullRowProb: 0.3, DupInBatch: 0.15})})
 		case x < 70:
